@@ -198,6 +198,8 @@ fn compile_expr(e: &Expr, mut scope: &mut Scope) -> Result<(Vec<Instr>, Reg)> {
                 if scope.has(name) {
                     let reg = scope.get(name).unwrap();
                     Ok((vec![], reg.clone()))
+                } else if scope.num_local == u8::MAX {
+                    Err(Error::from(format!("too many local variables: {:?}", name)))
                 } else {
                     Ok((
                         vec![],
